@@ -18,6 +18,24 @@ def load_contracts(modnames):
     return contracts, models
 
 
+def variants_of(c):
+    """a contract may list `variants`: dicts overriding keys (typically `params` for polymorphic arguments)"""
+    if 'variants' not in c:
+        return [(None, c)]
+    out = []
+    for name, v in c['variants'].items():
+        cv = {k: x for k, x in c.items() if k != 'variants'}
+        for k, x in v.items():
+            if k in ('requires', 'ensures') and k in cv:
+                cv[k] = list(cv[k]) + list(x)
+            elif isinstance(x, dict) and isinstance(cv.get(k), dict):
+                cv[k] = dict(cv[k], **x)
+            else:
+                cv[k] = x
+        out.append((name, cv))
+    return out
+
+
 def all_modules():
     import os
     d = os.path.join(core.VERIF, 'contracts')
@@ -37,7 +55,9 @@ def verify_functions(modnames, only=None, verbose=True):
         eng = engine.Engine(repo, contracts, models)
         t0 = time.time()
         try:
-            obs = eng.verify(rel, qual)
+            obs = []
+            for label, cv in variants_of(c):
+                obs += eng.verify(rel, qual, contract=cv, label=label)
             status = 'ok'
         except engine.Unsupported as e:
             obs = []
